@@ -114,9 +114,24 @@ def tie_status():
 TIE_LITERALS = {}
 
 
+def table_hints():
+    """keyword names in the REGENERATED keyword tables that no draft's vocabulary (as the generators know it) has:
+    a keyword somebody added to a table — the first thing to try when a table theorem no longer checks"""
+    import gen
+    known = set(k for d in gen.VOCAB for k in gen.VOCAB[d]) | {"$ref", "any"} | set(gen.SIMPLE_TYPES)
+    try:
+        src = open(os.path.join(LEAN, "JS", "Generated", "Tables.lean")).read()
+    except OSError:
+        return set()
+    names = set()
+    for m in re.finditer(r"def d\dKeywords.*?\n\n", src, flags=re.S):
+        names |= set(re.findall(r'\("((?:[^"\\]|\\.)*)"\.toList, \.', m.group(0)))
+    return set(n for n in names if n not in known and len(n) < 80)
+
+
 def set_hints(functions):
     """hand the literals of the changed functions THIS property depends on to the generators"""
-    ints, strs = set(), set()
+    ints, strs = set(), set(table_hints())
     for fn in functions:
         i, s = TIE_LITERALS.get(fn, (set(), set()))
         ints |= i
@@ -144,6 +159,7 @@ def proof_step(prop, log):
         if rc != 0:
             errs = re.findall(r"error: (.*)", txt)
             out["broken"].append({"module": mod, "errors": errs[:10], "log_tail": txt[-2500:]})
+            set_hints([])        # a table theorem may be what broke: unknown keywords in the regenerated tables
             return out
         out["built"] = True
         # forbidden constructs in every project file the theorems depend on
